@@ -47,6 +47,7 @@ int event_base_gettimeofday_cached(struct event_base *b, struct timeval *tv)
 {
     (void)b;
     tv->tv_sec = nondet_long();
+    __CPROVER_assume(tv->tv_sec >= 0 && tv->tv_sec < (1L << 40));        /* a sane clock */
     tv->tv_usec = 0;
     return nondet_int() ? 0 : -1;
 }
